@@ -234,6 +234,17 @@ class Hub:
             if cap is None:
                 return {OTHER}
             pb, op = cap
+            if o.path:
+                # a field of the captured value: label what that field was built with
+                pfl = flow_of(pb)
+                out = set()
+                for x in pfl.origins(op, path=tuple(o.path), interproc=self.ip_lab):
+                    k = (pb.path, x)
+                    if k in self._seen:
+                        continue
+                    self._seen.add(k)
+                    out |= self.label_origin(pb, pfl, x, depth + 1)
+                return out
             return self.label_operand(pb, op, depth + 1, self._seen)
         return {OTHER}
 
@@ -281,17 +292,18 @@ class Hub:
         return False
 
     # ---------------------------------------------------------------- origins across closure captures
-    def deep_origins(self, body, op, mut_calls=False, depth=0):
-        """{(body path, Origin)} with upvar origins replaced by the origins of the captured operand in the parent."""
+    def deep_origins(self, body, op, mut_calls=False, depth=0, path=()):
+        """{(body path, Origin)} with upvar origins replaced by the origins of the captured operand in the parent (the field
+        path read from the captured value is handed on, so `staged.path` of a captured struct is the value that field was built with)."""
         fl = flow_of(body)
         out = set()
-        for o in fl.origins(op, interproc=self.ip, mut_calls=mut_calls):
+        for o in fl.origins(op, path=path, interproc=self.ip, mut_calls=mut_calls):
             if o.kind == 'upvar' and o.key is not None and depth < 6:
                 cap = self.capture_operand(body, int(o.key))
                 if cap is not None:
                     pb, pop = cap
-                    for (bp, x) in self.deep_origins(pb, pop, mut_calls, depth + 1):
-                        out.add((bp, Origin(x.kind, x.key, tuple(x.path) + tuple(o.path), x.bb)))
+                    for (bp, x) in self.deep_origins(pb, pop, mut_calls, depth + 1, path=tuple(o.path)):
+                        out.add((bp, x))
                     continue
             out.add((body.path, o))
         return out
@@ -367,6 +379,27 @@ class Hub:
         if not kinds:
             return 'other'
         return '+'.join(sorted(kinds))
+
+    WALKERS = ('transfer::discover_local_files', 'std::fs::read_dir', 'std::fs::DirEntry::path', 'meta::discover_local_fingerprints')
+
+    def from_walk(self, body, op):
+        """the path is an entry found by listing a directory (not a name the code builds): which files those are is data"""
+        work, seen = [(body, op)], set()
+        while work and len(seen) < 60:
+            b_, op_ = work.pop()
+            for bp, o in self.deep_origins(b_, op_, mut_calls=True):
+                k = (bp, o.kind, str(o.key), o.bb)
+                if k in seen:
+                    continue
+                seen.add(k)
+                if o.kind == 'call' and str(o.key) in self.WALKERS:
+                    return True
+                if o.kind == 'call' and o.bb is not None and str(o.key) in ('std::path::Path::join', 'std::path::PathBuf::from', 'std::iter::Iterator::next',
+                                                                             'std::iter::IntoIterator::into_iter', 'std::result::Result::<T, E>::unwrap_or_default',
+                                                                             'std::vec::Vec::<T, A>::pop', 'core::slice::<impl [T]>::iter'):
+                    pb = self.F.body(bp)
+                    work += [(pb, a) for a in pb.blocks[o.bb]['term'].get('args', []) if a['k'] != 'const']
+        return False
 
     def appended(self, body, op):
         """identity of the suffix appends behind a path value: frozenset of (body, block) of `OsString::push` calls on the
